@@ -1416,10 +1416,22 @@ def rule_fixed_form_claim(ctx):
                 scope.append(g)
     handled = None
     for g in scope:
+        # locals that (transitively) depend on the driver registry: `driver = REG[method]`, `takes = "absorb" in signature(driver)...`
+        dep = {fn_reg}
+        changed = True
+        while changed:
+            changed = False
+            for a in ast.walk(g.node):
+                if isinstance(a, ast.Assign) and any(isinstance(y, ast.Name) and y.id in dep for y in ast.walk(a.value)):
+                    for t in a.targets:
+                        for y in ast.walk(t):
+                            if isinstance(y, ast.Name) and y.id not in dep:
+                                dep.add(y.id)
+                                changed = True
         for st in ast.walk(g.node):
             if not isinstance(st, ast.If):
                 continue
-            if not any(isinstance(y, ast.Name) and y.id == fn_reg for y in ast.walk(st.test)):
+            if not any(isinstance(y, ast.Name) and y.id in dep for y in ast.walk(st.test)):
                 continue
             for a in st.body + st.orelse:
                 if isinstance(a, ast.Assign) and any(isinstance(t, ast.Name) and (g is not claim or t.id in tested) for t in a.targets) \
@@ -1434,5 +1446,7 @@ def rule_fixed_form_claim(ctx):
                           f"driver '{key}' takes no absorb option and always returns its registered form, but the isometry claim is decided from the *requested* absorb mode: "
                           f"tensor_split(T, ..., method='{key}', absorb=<the other side>) flags the positive semi-definite factor as isometric",
                           where=f"{m.relpath}:{claim.lineno}", operand=str(key)))
-    r.floor(len(fixed), 2, "registered drivers with a fixed form")
+    if not fixed:
+        r.ok("no fixed-form drivers", nontrivial=False)
+    r.floor(len([1 for f, how, key in _registered_drivers(ctx) if how == "register_split_driver"]), 10, "registered split drivers examined for a fixed form")
     return r
